@@ -174,11 +174,13 @@ def gen_cases(out, tier, scratch):
 
     # ---- overview levels as found in the written file
     def sec_ovr():
-        sizes = [(511, 600), (512, 512), (513, 700), (600, 511), (512, 511), (100, 30), (40, 40)]
+        sizes = [(511, 600), (512, 512), (513, 700), (600, 511), (512, 511), (100, 30), (40, 40), (512, 520), (600, 513)]
+        big_all = {(512, 512), (512, 520), (600, 513), (511, 600)}     # explicit lists (incl. the empty one) on >= 512 px images
         if thorough:
             sizes += [(1024, 512), (511, 511), (2000, 513)]
         for (h, w) in sizes:
-            for req in ([None] if max(h, w) > 300 else [None, [], [2], [2, 4], [4, 2], [3]]):
+            reqs = [None, [], [2], [2, 4], [4, 2], [3]] if max(h, w) <= 300 else ([None, [], [2], [2, 4]] if (h, w) in big_all else [None])
+            for req in reqs:
                 pix = np.zeros((h, w), "uint8")
                 with warnings.catch_warnings():
                     warnings.simplefilter("ignore")
@@ -531,6 +533,26 @@ def roundtrip_configs(tier):
         dict(base, H=16, W=24, dtype="uint8", nodata_attr=255, nodata_kw=0, dest="file"),
         dict(base, H=16, W=24, dtype="uint8", overview_levels=[2], nodata_attr=255, nodata_kw=0),
         dict(base, H=512, W=512, dtype="uint8"),                 # default overview table
+        # >= 512 px on both sides: the file must hold exactly the requested levels, also the empty list
+        dict(base, H=512, W=520, dtype="uint8", overview_levels=[]),
+        dict(base, H=512, W=520, dtype="uint8", overview_levels=[2]),
+        dict(base, H=520, W=512, dtype="uint8", overview_levels=[2, 4], dest="file"),
+        dict(base, H=512, W=520, dtype="uint8"),
+        dict(base, H=512, W=520, dtype="uint8", external_overviews=[2, 4]),
+        dict(base, H=520, W=512, dtype="uint8", external_overviews=[2], layout="BYX", B=2, dest="file"),
+        dict(base, H=516, W=512, dtype="uint8", overview_levels=[], layout="YXB", B=2, use_windowed_writes=True),
+        # windowed writes on images larger than one block, every array rank / band count
+        dict(base, H=40, W=50, blocksize=16, use_windowed_writes=True),
+        dict(base, H=40, W=50, blocksize=16, use_windowed_writes=True, layout="BYX", B=1),
+        dict(base, H=40, W=50, blocksize=16, use_windowed_writes=True, layout="YXB", B=1),
+        dict(base, H=40, W=50, blocksize=16, use_windowed_writes=True, layout="BYX", B=3, dest="file"),
+        dict(base, H=40, W=50, blocksize=16, use_windowed_writes=True, layout="YXB", B=2),
+        dict(base, H=40, W=50, blocksize=16, use_windowed_writes=True, layout="BYX", B=1, overview_levels=[2],
+             intermediate_compression=True),
+        dict(base, H=40, W=50, blocksize=32, use_windowed_writes=True, layout="YXB", B=1, overview_levels=[2, 4],
+             intermediate_compression="zstd", dest="file"),
+        dict(base, H=40, W=48, blocksize=16, use_windowed_writes=True, layout="BYX", B=1, external_overviews=[2]),
+        dict(base, H=40, W=50, blocksize=16, use_windowed_writes=True, overview_levels=[2], intermediate_compression={"compress": "lzw"}),
         dict(base, H=511, W=600, dtype="uint8"),
         dict(base, H=1, W=1),
         dict(base, H=1, W=40, layout="YXB", B=5),
@@ -561,8 +583,12 @@ def roundtrip_configs(tier):
             c["nodata_attr"] = rng.choice([0, 1, 100])
         if rng.random() < 0.2:
             c["nodata_kw"] = rng.choice([0, 5])
-        if rng.random() < 0.2:
+        if rng.random() < 0.35:
             c["use_windowed_writes"] = True
+            if rng.random() < 0.6:
+                c["blocksize"] = 16                         # several blocks per image
+        if rng.random() < 0.15:
+            c["intermediate_compression"] = rng.choice([True, "deflate", "zstd"])
         cfgs.append(c)
     return cfgs
 
